@@ -3,3 +3,5 @@ import Gotree.Model.C14
 import Gotree.Model.Core
 import Gotree.Model.Dump
 import Gotree.Spec.C14
+import Gotree.Lemmas.C14
+import Gotree.Proofs.C14
